@@ -172,6 +172,54 @@ def _run_modes(a: dict, spec: dict, Checked, Plain) -> dict:
     return out
 
 
+def impl_decorated_while_tracing(_: dict) -> dict:
+    """A function decorated WHILE torch.jit.trace is recording (a helper defined inside forward, a module imported lazily on the
+    first run): being traced is not being scripted - the decoration must still produce a checking wrapper, so later eager calls
+    of that function are checked like any other."""
+    from typing import Annotated
+
+    import torch
+
+    import dltype
+
+    T = Annotated[torch.Tensor, dltype.FloatTensor["b 3"]]
+    made = {}
+
+    class M(torch.nn.Module):
+        def forward(self, x):
+            if "f" not in made:
+                def helper(t):
+                    return t * 2.0
+
+                helper.__annotations__ = {"t": T, "return": T}
+                made["raw"] = helper
+                made["f"] = dltype.dltyped()(helper)
+            return made["f"](x)
+
+    problems = []
+    try:
+        torch.jit.trace(M(), (torch.zeros(2, 3),))
+    except BaseException as e:  # noqa: BLE001
+        return {"n": 0, "problems": [], "skipped": f"tracing failed: {type(e).__name__}"}
+    f = made.get("f")
+    if f is None or f is made.get("raw"):
+        problems.append("a function decorated while torch.jit.trace was recording was returned undecorated (never checked afterwards)")
+    else:
+        try:
+            f(torch.zeros(2, 3))
+        except BaseException as e:  # noqa: BLE001
+            problems.append(f"a conforming eager call of a function decorated during tracing raised {type(e).__name__}")
+        for bad in (torch.zeros(2, 4), torch.zeros(2, 3, 1), torch.zeros(2, 3, dtype=torch.int32)):
+            try:
+                f(bad)
+                problems.append(f"a non-conforming eager call {tuple(bad.shape)} {bad.dtype} of a function decorated during tracing was accepted")
+            except dltype.DLTypeError:
+                pass
+            except BaseException as e:  # noqa: BLE001
+                problems.append(f"non-conforming eager call of a function decorated during tracing: {type(e).__name__} instead of a DLTypeError")
+    return {"n": 5, "problems": problems}
+
+
 def run(tier: str, seed: int, rep: Report, model: Model) -> dict:
     modes = ["eager", "trace", "script"] + (["compile"] if tier == "thorough" else [])
     rep.rule = (f"{len(MODULES)} module shapes (one / several tensor parameters, expression and multi-axis annotations, tuple return, free provider) "
@@ -180,6 +228,7 @@ def run(tier: str, seed: int, rep: Report, model: Model) -> dict:
     worker = ImplWorker("harness.props.c19")
     try:
         results = worker.call_many("impl_module", [{"name": n, "modes": modes} for n in MODULES], timeout=600.0, max_timeouts=2)
+        dwt = worker.call("impl_decorated_while_tracing", {}, timeout=300.0)
     finally:
         worker.close()
     for name, res in zip(MODULES, results):
@@ -194,4 +243,8 @@ def run(tier: str, seed: int, rep: Report, model: Model) -> dict:
             rep.count(f"{mode}:ran", rec["ran"])
             for p in rec["problems"]:
                 rep.violation({"what": p, "module": name, "mode": mode})
+    rep.case("decorated_while_tracing", dwt)
+    rep.count("decorated_while_tracing:" + ("skipped" if dwt.get("skipped") else "ran"))
+    for pr in dwt.get("problems", ["the decorated-while-tracing run did not finish"] if "problems" not in dwt else []):
+        rep.violation({"what": pr, "module": "helper decorated inside forward", "mode": "trace"})
     return {"modes": modes}
